@@ -121,9 +121,12 @@ def handle (j : Json) : Except String Json := do
       | .null => pure none
       | c => do pure (some (← fromJson? (α := Nat) c))
     let filt ← getBool j "filterEligible"
+    let allTied ← match j.getObjVal? "allTied" with       -- optional, default true
+      | .ok v => fromJson? (α := Bool) v
+      | .error _ => pure true
     let valJson : Val Int → Json := fun v => match v with | .nan => Json.null | .num n => toJson n
     return Json.mkObj [
-      ("model", match getBest oI objs safety filt count trials with
+      ("model", match getBest oI objs safety filt allTied count trials with
         | none => Json.null
         | some l => toJson (l.map (·.id)).toArray),
       ("labels", toJson ((trials.map (labelRow oI objs safety)).map fun r => toJson (r.map valJson).toArray).toArray),
